@@ -15,6 +15,9 @@ use n6::*;
 pub struct NaiveDateTime { pub opaque: u64 }
 //@ include pt_prelude.tpl PACKETS=packets_all.tpl
 //@ include ../prelude/sink.rs
+/// `Err(e.into())` / `?` into anyhow::Error (N10)
+pub trait IntoVErr { spec fn as_verr(self) -> VErr; fn into_verr(self) -> (r: VErr) ensures r == self.as_verr(); }
+impl IntoVErr for ZVTError { open spec fn as_verr(self) -> VErr { VErr::Zvt(self) } fn into_verr(self) -> (r: VErr) { VErr::Zvt(self) } }
 
 impl<S> PacketTransport<S>
 where
